@@ -34,7 +34,8 @@ def reader_population(n, seed, ndims=(2, 3), payloads=("random", "special", "ext
             if g["file_id_base"] == "mixed" and g.get("nfiles", 2) < 2:
                 g["nfiles"] = 2
         if i % 16 == 11:      # the same geometry in micrometres / nanometres (tiny cells in absolute terms)
-            g["length_scale"] = [1e-6, 1e-9][(i // 16) % 2]
+            # ... or in centimetres across a galaxy: header numbers with positive exponents (1.5e+22)
+            g["length_scale"] = [1e-6, 1e20, 1e-9][(i // 16) % 3]
         if i % 16 == 5:       # far from the origin: coordinate / cell size of 1e5 .. 1e7
             g["origin"] = [rng.choice([1.0e5, -3.0e5, 2.5e6]) for _ in range(nd)]
         if i % 16 == 1:       # negative whole-number bounds: "%.17g" writes them without a decimal point ("-1 -2 3")
